@@ -28,6 +28,12 @@ Theorem relate_matrix_decides_intersects : forall a b : geom, operand_ok a -> op
 Proof. exact m_intersects_relate_is_intersects. Qed.
 Print Assumptions relate_matrix_decides_intersects.
 
+(* Disjoint is symmetric in its operands - here a corollary of the symmetry of the Intersects algorithm *)
+Theorem disjoint_symmetric_via_intersects : forall a b : geom, operand_ok a -> operand_ok b ->
+  go_disjoint (enc_matrix (relate a b)) = go_disjoint (enc_matrix (relate b a)).
+Proof. exact disjoint_sym_via_intersects. Qed.
+Print Assumptions disjoint_symmetric_via_intersects.
+
 (* non-vacuity: a square with a hole against a square inside the hole (disjoint, boundaries apart) and
    against a square inside the shell's body (intersecting, boundaries apart) *)
 Definition vq (x y : Z) : vtx Q := Build_vtx (inject_Z x) (inject_Z y) (inject_Z 0) (inject_Z 0).
